@@ -26,13 +26,11 @@ def _root_.Eos.World.Kind.isCharge : Kind → Bool
   | _ => false
 
 /-- A resisted effect (resistance attribute present and non-zero) has only projected modifiers
-(`domain = 4`), none of them with the owner-skill filter.  The resistance attribute is read on the *carrier*
+(`domain = 4`) — the property's own well-formedness clause.  The resistance attribute is read on the *carrier*
 of the affected item, and `_revise_regular_attr_dependents` finds the readers of a changed resistance
-attribute only through the projectors *targeting* the changed item: a resisted local modifier, and a
-projected owner-skill modifier (it selects the drones of the targeted ship, whose carrier is the drone
-itself), are read without being enumerated. -/
+attribute only through projectors: a resisted local modifier would be read without being enumerated. -/
 def ResistWF (u : Universe) : Prop :=
-  ∀ e ∈ u.effects, ∀ r, e.resistAttr = some r → r ≠ 0 → ∀ m ∈ e.mods, m.domain = 4 ∧ m.filter ≠ 5
+  ∀ e ∈ u.effects, ∀ r, e.resistAttr = some r → r ≠ 0 → ∀ m ∈ e.mods, m.domain = 4
 
 /-- A charge whose container is present sits in a module of its own fit (never in a drone / fighter), so
 that its carrier is the ship of its fit. -/
@@ -105,11 +103,13 @@ theorem rdeps_src {i : Nat} {b : Int} {y x' : Item} {s : Spec} (hy : item? cfg i
 
 theorem rdeps_res {i : Nat} {b : Int} {y a t x' : Item} {s : Spec} (hy : item? cfg i = some y)
     (ha : a ∈ cfg.items) (hs : s ∈ projSpecs u cfg d a) (hr : s.e.resistAttr = some b) (h0 : b ≠ 0)
-    (htg : s.tg = some t) (hid : t.id = y.id) (hx' : x' ∈ affectees u cfg d s) :
-    (x'.id, s.m.tgtAttr) ∈ rdeps u cfg d (i, b) := by
+    (ht : t ∈ targetsOf cfg d a s.e)
+    (hid : t.id = y.id ∨ (y.kind.ownerModifiable = true ∧ shipOf cfg y.fit = some t.id))
+    (hx' : x' ∈ affectees u cfg d s) : (x'.id, s.m.tgtAttr) ∈ rdeps u cfg d (i, b) := by
   unfold rdeps; simp only [hy]
   refine List.mem_append_right _ (List.mem_flatMap.2 ⟨a, ha, List.mem_flatMap.2 ⟨s, List.mem_filter.2 ⟨hs, ?_⟩, ?_⟩⟩)
-  · simp [hr, h0, htg, hid]
+  · simp only [Bool.and_eq_true, beq_iff_eq, bne_iff_ne, ne_eq, List.any_eq_true, Bool.or_eq_true]
+    exact ⟨⟨hr, h0⟩, t, ht, hid⟩
   · exact List.mem_map.2 ⟨x', hx', rfl⟩
 
 /-! ## What a node reads -/
@@ -159,58 +159,64 @@ theorem resistRead_cases {e : Effect} {x c : Item} {r : Int} (h : resistRead cfg
       cases hEq
       exact ⟨hr', by simpa using h0, hc'⟩
 
-/-- The carrier of an item selected by a projected (non owner-skill) modifier is the recorded target. -/
+/-- The carrier of an item selected by a projected modifier is the recorded target — or the item itself,
+when it is an owner-modifiable in-space item (drone, fighter) of the targeted ship's fit. -/
 theorem carrier_of_selected (hU : UniqueIds cfg) (hC : ChargeWF cfg) {a t x c : Item} {m : Modifier}
     {tx : ItemType} (hx : x ∈ cfg.items) (ht : t ∈ cfg.items) (htk : t.kind.isSolsys = true)
-    (hf5 : m.filter ≠ 5) (hsel : affectsProjected cfg a m t x tx = true)
-    (hc : Micro.carrierOf cfg x = some c) : c.id = t.id := by
+    (hsel : affectsProjected cfg a m t x tx = true)
+    (hc : Micro.carrierOf cfg x = some c) :
+    c.id = t.id ∨ (c = x ∧ x.kind.ownerModifiable = true ∧ shipOf cfg x.fit = some t.id) := by
   unfold affectsProjected at hsel
   split at hsel
   · -- the target itself
     have hid : x.id = t.id := by simpa using hsel
     have hxt : x = t := eq_of_nodup_map _ hU hx ht hid
     subst hxt
+    left
     unfold Micro.carrierOf at hc
     cases hk : x.kind <;> rw [hk] at htk hc <;> simp [Kind.isSolsys] at htk <;> simp at hc <;> rw [← hc]
-  · -- items aboard the targeted ship
+  · -- items aboard the targeted ship / owned by its fit
     simp only [Bool.and_eq_true, beq_iff_eq] at hsel
     obtain ⟨⟨⟨_, hship⟩, hfit⟩, hpass⟩ := hsel
-    have hdom : x.kind.modDomain = some 3 := by
+    have hdom : x.kind.modDomain = some 3 ∨ x.kind.ownerModifiable = true := by
       unfold passesFilter at hpass
       split at hpass
-      · simpa using hpass
+      · exact Or.inl (by simpa using hpass)
       · split at hpass
-        · simp only [Bool.and_eq_true, beq_iff_eq] at hpass; exact hpass.1.1
+        · simp only [Bool.and_eq_true, beq_iff_eq] at hpass; exact Or.inl hpass.1.1
         · split at hpass
-          · simp only [Bool.and_eq_true, beq_iff_eq] at hpass; exact hpass.1
+          · simp only [Bool.and_eq_true, beq_iff_eq] at hpass; exact Or.inl hpass.1
           · split at hpass
-            · rename_i h5; exact absurd (by simpa using h5) hf5
+            · simp only [Bool.and_eq_true] at hpass; exact Or.inr hpass.1
             · cases hpass
     have hcar : ∀ f, f = t.fit → (shipOf cfg f).bind (item? cfg) = some c → c.id = t.id := by
       intro f hf h
       rw [hf, hship] at h
       exact item?_id h
+    have hown : shipOf cfg x.fit = some t.id := by rw [hfit]; exact hship
     unfold Micro.carrierOf at hc
-    cases hk : x.kind <;> rw [hk] at hdom hc <;> simp [Kind.modDomain] at hdom
+    cases hk : x.kind <;> rw [hk] at hdom hc <;> simp [Kind.modDomain, Kind.ownerModifiable] at hdom
     all_goals first
-      | exact hcar _ hfit hc
+      | exact Or.inl (hcar _ hfit hc)
+      | exact Or.inr ⟨(Option.some.inj hc).symm, by rw [hk]; rfl, hown⟩
       | (obtain ⟨p, hp, hcp⟩ := Option.bind_eq_some_iff.1 hc
          obtain ⟨hnd, hnf, hmod⟩ := hC x hx (by simp [hk, Kind.isCharge]) p hp
          cases hpk : p.kind <;> rw [hpk] at hcp hnd hnf hmod <;> simp at hcp hnd hnf
-         all_goals exact hcar _ ((hmod (by simp [Kind.isModule])).trans hfit) hcp)
+         all_goals exact Or.inl (hcar _ ((hmod (by simp [Kind.isModule])).trans hfit) hcp))
 
 /-- Structure of a resistance read of node `(x, attr)`: the spec is a projected one, its recorded target is
-the carrier whose attribute is read. -/
+the carrier whose attribute is read, or the ship of the (owner-modifiable) carrier's fit. -/
 theorem resist_dep (hU : UniqueIds cfg) (hR : ResistWF u) (hT : TgtKinds cfg d) (hC : ChargeWF cfg)
     {x c : Item} {tx : ItemType} {attr r : Int} {s : Spec} (hx : x ∈ cfg.items)
     (hs : s ∈ specsOn u cfg d x tx attr) (hrr : resistRead cfg s.e x = some (c, r)) :
     ∃ a ∈ cfg.items, s ∈ projSpecs u cfg d a ∧ s.e.resistAttr = some r ∧ r ≠ 0 ∧
-      ∃ t ∈ targetsOf cfg d a s.e, s.tg = some t ∧ t.id = c.id := by
+      ∃ t ∈ targetsOf cfg d a s.e, s.tg = some t ∧
+        (t.id = c.id ∨ (c = x ∧ x.kind.ownerModifiable = true ∧ shipOf cfg x.fit = some t.id)) := by
   obtain ⟨hall, _, hsel⟩ := mem_specsOn.1 hs
   obtain ⟨a, ha, hsa⟩ := mem_allSpecs.1 hall
   obtain ⟨hr, h0, hc⟩ := resistRead_cases hrr
   obtain ⟨_, _, he, hm⟩ := spec_wf hsa
-  obtain ⟨hdom, hf5⟩ := hR s.e he r hr h0 s.m hm
+  have hdom := hR s.e he r hr h0 s.m hm
   rcases List.mem_append.1 hsa with hl | hp
   · obtain ⟨e, _, m, _, hd, rfl⟩ := mem_localSpecs.1 hl
     exact absurd hdom hd
@@ -222,7 +228,9 @@ theorem resist_dep (hU : UniqueIds cfg) (hR : ResistWF u) (hT : TgtKinds cfg d) 
       unfold selects at hsel
       simp only [Bool.and_eq_true] at hsel
       exact hsel.2
-    exact (carrier_of_selected hU hC hx (item?_mem hj) (hT a e t ht) hf5 hsel' hc).symm
+    rcases carrier_of_selected hU hC hx (item?_mem hj) (hT a e t ht) hsel' hc with h | h
+    · exact Or.inl h.symm
+    · exact Or.inr h
 
 /-- **Coverage**: whatever the calculation of node `n` reads is enumerated as having `n` as a reverse
 dependency. -/
@@ -239,14 +247,17 @@ theorem coverage (hU : UniqueIds cfg) (hR : ResistWF u) (hT : TgtKinds cfg d) (h
     rw [hm, hsa_a, ← htgt]
     exact rdeps_src (item?_of_mem hU ha) hsa rfl (mem_affectees.2 ⟨hxm, tx, htx, hsel⟩)
   · -- resistance attribute on the carrier
-    obtain ⟨a, ha, hp, hr, h0, t, _, htg, hid⟩ := resist_dep hU hR hT hC hxm hs hrr
+    obtain ⟨a, ha, hp, hr, h0, t, ht, _, hid⟩ := resist_dep hU hR hT hC hxm hs hrr
     obtain ⟨_, htgt, hsel⟩ := mem_specsOn.1 hs
     have hcm : c ∈ cfg.items := by
       rcases carrierOf_mem (cfg := cfg) (carrierOf_eq x ▸ (resistRead_cases hrr).2.2) with rfl | hcm
       · exact hxm
       · exact hcm
     rw [hm, ← htgt]
-    exact rdeps_res (item?_of_mem hU hcm) ha hp hr h0 htg hid (mem_affectees.2 ⟨hxm, tx, htx, hsel⟩)
+    refine rdeps_res (item?_of_mem hU hcm) ha hp hr h0 ht ?_ (mem_affectees.2 ⟨hxm, tx, htx, hsel⟩)
+    rcases hid with h | ⟨rfl, hown, hship⟩
+    · exact Or.inl h
+    · exact Or.inr ⟨hown, hship⟩
   · -- cap attribute
     have : m = (x.id, m.2) := by rw [← hm1]
     rw [this]
@@ -272,8 +283,10 @@ theorem dep_item_ne (hU : UniqueIds cfg) (hR : ResistWF u) (hT : TgtKinds cfg d)
     obtain ⟨j, hj, hjt⟩ := mem_targetsOf.1 ht
     rw [hm]
     intro hi
-    have : j = i := by rw [← item?_id hjt, hid]; exact hi
-    exact htg _ _ (this ▸ hj)
+    rcases hid with hid | ⟨rfl, _, _⟩
+    · have : j = i := by rw [← item?_id hjt, hid]; exact hi
+      exact htg _ _ (this ▸ hj)
+    · exact hn (by rw [← item?_id hx]; exact hi)
   · rw [hm1, item?_id hx]; exact hn
 
 /-! ## List lemmas -/
